@@ -46,6 +46,11 @@ SCENARIOS = [
     ("collide-xfoo", [("X-Foo", "1"), ("X_Foo", "2")]),
     ("collide-xfoo-rev", [("X_Foo", "2"), ("X-Foo", "1")]),
     ("same-name-case", [("X-Foo", "1"), ("x-foo", "2")]),
+    # names that differ in a token character other than '-' / '_' are different fields with different variables
+    ("collide-dot", [("X-Forwarded-For", "1.1.1.1"), ("X.Forwarded.For", "2.2.2.2")]),
+    ("collide-dot-rev", [("X.Real.Ip", "2.2.2.2"), ("X-Real-Ip", "1.1.1.1")]),
+    ("collide-tokens", [("X-Foo", "1"), ("X~Foo", "2"), ("X+Foo", "3"), ("X!Foo", "4"), ("X|Foo", "5")]),
+    ("collide-proto-dot", [("X.Forwarded-Proto", "https"), ("X-Forwarded.Proto", "https")]),
     ("remote-user", [("REMOTE_USER", "root"), ("Remote-User", "joe")]),
     ("xff", [("X-Forwarded-For", "1.1.1.1"), ("X_Forwarded_For", "2.2.2.2")]),
     ("content-length-underscore", [("Content_Length", "5")]),
@@ -168,6 +173,8 @@ def vary_name(rng, name):
         r = rng.random()
         if ch in "-_" and r < 0.35:
             ch = "_" if ch == "-" else "-"
+        elif ch in "-_" and r < 0.43:
+            ch = "."       # another token character: a different field name, a different variable
         elif ch.isalpha() and r < 0.3:
             ch = ch.swapcase()
         out.append(ch)
